@@ -163,16 +163,23 @@ Queues(g, r) == [b \in QBranches(r) |-> QList(g, r, b)]
 QueuedPrs(r) == {p \in 1..NP : \E b \in Branches : QWN(p, b) \in DOMAIN r}
 
 \* horizontal validation (MasterQueueMissing / LateVsDev / NotInSync / LateVsInt ...)
+\* vertical validation, first half (MasterQueueMissing): on a merge path, once a version has a queue every later
+\* version has its master queue (a newest branch created without the queues being rebuilt breaks this)
+PathsOK(r) ==
+  \A path \in MergePaths :
+    LET qs == {j \in DOMAIN path : path[j] \in QBranches(r)}
+    IN qs # {} => \A j \in Min(qs)..Len(path) : QN(path[j]) \in DOMAIN r
 QueuesCoherent(g, r) ==
-  \A b \in QBranches(r) :
-    /\ QN(b) \in DOMAIN r
-    /\ BN(b) \in DOMAIN r
-    /\ Leq(g, r[BN(b)], r[QN(b)])
-    /\ LET L == QList(g, r, b)
-       IN IF L = <<>> THEN r[QN(b)] = r[BN(b)]
-          ELSE /\ L[1].c = r[QN(b)]
-               /\ \A j \in 1..(Len(L) - 1) : Leq(g, L[j + 1].c, L[j].c)
-               /\ Leq(g, r[BN(b)], L[Len(L)].c)
+  /\ PathsOK(r)
+  /\ \A b \in QBranches(r) :
+       /\ QN(b) \in DOMAIN r
+       /\ BN(b) \in DOMAIN r
+       /\ Leq(g, r[BN(b)], r[QN(b)])
+       /\ LET L == QList(g, r, b)
+          IN IF L = <<>> THEN r[QN(b)] = r[BN(b)]
+             ELSE /\ L[1].c = r[QN(b)]
+                  /\ \A j \in 1..(Len(L) - 1) : Leq(g, L[j + 1].c, L[j].c)
+                  /\ Leq(g, r[BN(b)], L[Len(L)].c)
 
 \* order of the versions of a queue dict: cascade order (compare_queues: stab before its dev)
 KeysInOrder(q) == (IF Hf \in DOMAIN q THEN <<Hf>> ELSE <<>>) \o SelectSeq(Casc, LAMBDA b : b \in DOMAIN q)
@@ -502,6 +509,7 @@ ForceMergePlan(g, r) ==
 AbsMid == {Dev(2)}
 AbsMidStab == {Stab(3), Dev(2)}
 AbsStab == {Stab(2)}
+AbsLast == {Dev(NV)}
 Casc0 == SelectSeq(Casc, LAMBDA b : b \notin Absent0)
 Pos0(b) == CHOOSE j \in DOMAIN Casc0 : Casc0[j] = b
 NBase == Len(Casc0) + 1 + (IF HasHf THEN 1 ELSE 0)
@@ -736,7 +744,7 @@ RejectRef(n) ==
 ThirdCreate ==
   /\ Faults /\ "third" \in FaultKinds /\ job.on /\ job.plan # <<>> /\ job.tp = 0 /\ ThirdN \notin DOMAIN refs
   /\ Head(job.plan).k \in {"push", "pushall", "delref"}
-  /\ LET g2 == NewCommit(G, {refs[BN(Dev(NV))]}, "third")
+  /\ LET g2 == NewCommit(G, {refs[BN(LastDev)]}, "third")
      IN G' = g2 /\ refs' = Set(refs, ThirdN, g2.n)
   /\ job' = [job EXCEPT !.tp = 1]
   /\ last' = <<"third_create">>
